@@ -83,7 +83,7 @@ def check_c10(tier, seed, replay=None):
         "(delete / insert / replace / truncate); each also with the reader failing (non-EOF error) at sampled offsets, short files at EVERY offset. Required of ReadFile: returns "
         "(no panic, no hang); a reader failure before the end gives an error; if it reports success on x then x + one more valid struct gives an error or a File containing that struct. "
         "The extracted model's result (full File dump) is compared on every input; distinct = distinct (input, failure offset)",
-        "props/C10.v", ["C10_partial", "C10_no_panic", "C10_reader_failure", "C10_tables", "C10_terminates", "C10_tokenizer_fuel", "C10_consumes_input"])
+        "props/C10.v", ["C10_partial", "C10_no_panic", "C10_reader_failure", "C10_tables", "C10_terminates", "C10_tokenizer_fuel", "C10_consumes_input", "C10_no_error_dropped", "C10_append_schema"])
     rng = SplitMix64(seed).fork("C10")
     inputs = []     # (bytes, k, source)
     files = testdata_files()
